@@ -101,6 +101,15 @@ pub fn read<const N: usize, Ns>(reader: impl Read) -> Result<Mappings<N, Ns>> {
 
 	let mut mappings = Mappings::new(MappingInfo { namespaces });
 
+	// the comment of the mappings themselves is written as a sub-section of the header
+	WithMoreIdentIter::new(&mut lines).next_level().on_every_line(|_, line| {
+		if line.first_field == "c" {
+			add_comment(&mut mappings.javadoc, line)
+		} else {
+			Ok(())
+		}
+	}).context("reading header sub-sections")?;
+
 	WithMoreIdentIter::new(&mut lines).on_every_line(|iter, line| {
 		if line.first_field == "c" {
 			let names = line.into_names()?;
